@@ -276,6 +276,20 @@ def write_checks(ctx, model, tmp):
     for (text, desc), ans in zip(wmetas, model.ask(wlines)):
         if common.dec_str(ans) != text:
             ctx.disagree("csvwrite", desc, text[:300], common.dec_str(ans)[:300])
+    # the same path rewritten at once with another table of the same size in bytes: a read returns what the file holds now
+    path = os.path.join(tmp, "again.csv")
+    for rnd in range(3):
+        for a, b in (([1.5, 2.5, 3.5], [4.5, 9.5, 0.5]), ([10, 20, 30], [11, 21, 31]), ([0.25, 0.75], [0.75, 0.25])):
+            got = []
+            for col in (a, b):
+                EEMSWrite("W", []).execute(OutFileName=path, OutFieldNames=[eems.Producer(numpy.ma.array(col), "v", False)])
+                out = read_impl(path, "v", None, None)
+                got.append(numpy.ma.getdata(out[1]).tolist() if out[0] == "ok" else out[1])
+            ctx.count("rewritten_file_reads")
+            if got != [[float(x) for x in a], [float(x) for x in b]]:
+                ctx.fail("a file written, read, rewritten with other values of the same length and read again: the reads return %r and %r, the file held %r then %r" % (got[0], got[1], a, b),
+                         {"first": a, "second": b})
+                break
     # a long table (twenty thousand rows, three columns): written and read back bit for bit, rows in order
     n = 20000
     big = [numpy.ma.array(numpy.arange(n, dtype=float) * 0.1 - 777.7), numpy.ma.array(numpy.arange(n, dtype=int) * 7 - 50000, dtype=int),
